@@ -97,8 +97,9 @@ def compare(jobs, trace_path):
             elif k == "ret" and cur is not None and 0 <= opn < len(cur["pred"]) and cur["pred"][opn] is not None:
                 p = cur["pred"][opn]
                 checked += 1
-                if e.get("ok") != 1 or e.get("v") != p["v"]:
-                    wrong.append({"job": cur["id"], "op": opn + 1, "model": p, "impl": {"v": e.get("v"), "ok": e.get("ok")}})
+                res = "ok" if e.get("ok") == 1 else {"inject": "user", "cancel_pp": "pp"}.get(e.get("kind"), e.get("kind"))
+                if res != p.get("res", "ok") or (res == "ok" and e.get("v") != p["v"]):
+                    wrong.append({"job": cur["id"], "op": opn + 1, "model": p, "impl": {"v": e.get("v"), "ok": e.get("ok"), "res": res}})
                 elif ex != p["ex"]:
                     drift.append({"job": cur["id"], "op": opn + 1, "model": p["ex"], "impl": ex})
     return checked, wrong, drift
@@ -113,7 +114,8 @@ REV_CFG = {"quick": [dict(NF=2, MaxOps=4, MaxWrites=2, Progs="AllProgs"),
            "thorough": [dict(NF=2, MaxOps=5, MaxWrites=3, Progs="AllProgs"),
                         dict(NF=3, MaxOps=2, MaxWrites=1, Progs="Progs1"),
                         dict(NF=3, MaxOps=6, MaxWrites=3, Progs="AllProgs", sim=2500)],
-           "try3": [dict(NF=3, MaxOps=2, MaxWrites=1, Progs="Progs1")]}
+           "try3": [dict(NF=3, MaxOps=2, MaxWrites=1, Progs="Progs1")],
+           "tryp": [dict(NF=2, MaxOps=5, MaxWrites=1, MaxPanics=1, Progs="AllProgs")]}
 REV_INVARIANTS = ["NoBad", "FinalIsLfp", "LocksQuiescent"]
 
 
@@ -152,20 +154,29 @@ REV_FB_CFG = {"quick": [dict(NF=2, MaxOps=4, MaxWrites=2, Progs="AllProgs"),
                            dict(NF=3, MaxOps=6, MaxWrites=3, Progs="AllProgs", sim=2500)]}
 
 
-def run_fixrev(tier, wd, timeout=3000, fb=False):
+# user panics armed at body starts: unwinding, poisoned memos, propagated panics, recovery in later revisions
+REV_PANIC_CFG = {"quick": [dict(NF=2, MaxOps=4, MaxWrites=1, MaxPanics=1, Progs="AllProgs"),
+                           dict(NF=3, MaxOps=6, MaxWrites=2, MaxPanics=2, Progs="AllProgs", sim=120)],
+                 "thorough": [dict(NF=2, MaxOps=5, MaxWrites=1, MaxPanics=1, Progs="AllProgs"),
+                              dict(NF=3, MaxOps=7, MaxWrites=3, MaxPanics=2, Progs="AllProgs", sim=2500)]}
+
+
+def run_fixrev(tier, wd, timeout=3000, fb=False, panics=False):
     out_all = {"consts": [], "generated": 0, "distinct": 0, "depth": 0, "replays": [], "wall_s": 0.0}
-    for n, consts in enumerate((REV_FB_CFG if fb else REV_CFG)[tier]):
-        cfgp = os.path.join(wd, f"MC_FixRev{'Fb' if fb else ''}_emit{n}.cfg")
+    for n, consts in enumerate((REV_PANIC_CFG if panics else REV_FB_CFG if fb else REV_CFG)[tier]):
+        cfgp = os.path.join(wd, f"MC_FixRev{'Fb' if fb else ''}{'Panic' if panics else ''}_emit{n}.cfg")
         sim = consts.get("sim")
         with open(cfgp, "w") as f:
             f.write("SPECIFICATION Spec\nCONSTANTS\n")
+            if "MaxPanics" not in consts:
+                f.write("  MaxPanics = 0\n")
             for k, v in consts.items():
                 if k == "sim":
                     continue
                 f.write(f"  {k} <- {v}\n" if k == "Progs" else f"  {k} = {v}\n")
             f.write(f"  Emit = TRUE\n  Mut = \"none\"\n  Fb = {'TRUE' if fb else 'FALSE'}\n  defaultInitValue = 0\nINVARIANTS "
                     + " ".join(["NoBadFb", "LocksQuiescent"] if fb else REV_INVARIANTS) + "\nCHECK_DEADLOCK FALSE\n")
-        twd = os.path.join(wd, f"mc_fixrev{'fb' if fb else ''}{n}")
+        twd = os.path.join(wd, f"mc_fixrev{'fb' if fb else ''}{'panic' if panics else ''}{n}")
         os.makedirs(twd, exist_ok=True)
         res = run_tlc(REV_SPEC, cfgp, twd, workers=8 if sim else 16, timeout=timeout, heap="12g", deque=False,
                       simulate=f"num={sim}" if sim else None, extra=["-depth", "600"] if sim else None)
@@ -204,15 +215,21 @@ def replay_jobs_rev(mc, limit, seed, kind="fix"):
     jobs = []
     for n, r in enumerate(reps):
         hist, pred = [], []
+        armed = False
         cur = r["inp0"]
         for o in r["h"]:
             if o["op"] == "get":
                 hist.append({"op": "get", "f": o["f"], "i": 0, "v": 0, "d": -1, "k": 0})
-                pred.append({"v": mask(o["v"]), "ex": o["ex"]})
+                pred.append({"v": mask(o["v"]), "ex": o["ex"], "res": o.get("res", "ok")})
+            elif o["op"] == "arm":
+                hist.append({"op": "arm", "f": o["f"], "i": 0, "v": 0, "d": -1, "k": 0})
+                pred.append(None)
+                armed = True
             else:
                 cur = 1 - cur
                 hist.append({"op": "set", "f": 1, "i": 1, "v": cur, "d": -1, "k": 0})
                 pred.append(None)
-        jobs.append({"id": n + 1, "prog": program_rev(r["calls"], r["gate"], r["inp0"], kind), "hist": hist, "inject": 0,
-                     "seed": seed, "mode": "mc-fix", "pred": pred})
+        # (inject = a callback count that is never reached: the monitor judges the run as one with injected panics)
+        jobs.append({"id": n + 1, "prog": program_rev(r["calls"], r["gate"], r["inp0"], kind), "hist": hist,
+                     "inject": 1000000 if armed else 0, "seed": seed, "mode": "fault-fix" if armed else "mc-fix", "pred": pred})
     return jobs
